@@ -58,6 +58,7 @@ def objects_by_param(c, n):
 
 def is_empty(c, upto=8):
     """No object of any size <= upto (cross-check of WC.is_empty)."""
+    upto = max(upto, len(c.prefix) + 2)
     return all(not objects(c, n) for n in range(upto + 1))
 
 
